@@ -304,6 +304,62 @@ for trace in T3:
                     {"trace": trace, "gap": gap, "terminal": term, "matrix": "asymmetric"},
                     lambda trace=trace, gap=gap, term=term: score_contract(S3, trace, gap, term, ASYM, ASYM_TABLE))
 
+def identity_contract(seqs, trace):
+    """get_sequence_identity / get_pairwise_sequence_identity in every mode against a column-by-column count;
+    the trace may cover only a part of each sequence (local alignments, clipped CIGARs, sliced alignments)"""
+    ali = align.Alignment(seqs, np.array(trace, dtype=np.int64), None)
+    n = len(seqs)
+    cols = [tuple(t) for t in trace]
+
+    def count(i, j, mode):
+        match = sum(1 for t in cols if t[i] != -1 and t[j] != -1 and seqs[i].code[t[i]] == seqs[j].code[t[j]])
+        if mode == "all":
+            return match, len(cols)
+        if mode == "shortest":
+            return match, min(len(seqs[i]), len(seqs[j]))
+        firsts = [[k for k, t in enumerate(cols) if t[r] != -1] for r in (i, j)]
+        if not all(firsts):
+            return match, 0
+        start, stop = max(f[0] for f in firsts), min(f[-1] for f in firsts) + 1
+        return match, max(stop - start, 0)
+    for mode in ("all", "not_terminal", "shortest"):
+        exp = [[count(i, j, mode) for j in range(n)] for i in range(n)]
+        try:
+            got = align.get_pairwise_sequence_identity(ali, mode)
+        except ValueError:
+            if mode == "not_terminal" and any(d == 0 for row in exp for _, d in row):
+                continue
+            raise
+        for i in range(n):
+            for j in range(n):
+                m, d = exp[i][j]
+                if d and abs(float(got[i, j]) - m / d) > 1e-9:
+                    return f"get_pairwise_sequence_identity({mode})[{i},{j}] = {float(got[i, j]):.4f}, column count gives {m}/{d}"
+        if n == 2:
+            m, d = exp[0][1]
+            try:
+                g1 = align.get_sequence_identity(ali, mode)
+            except ValueError:
+                continue
+            if d and abs(g1 - m / d) > 1e-9:
+                return f"get_sequence_identity({mode}) = {g1:.4f}, column count gives {m}/{d}"
+    return None
+
+
+ID_SEQS = [seq.NucleotideSequence(x) for x in ("ACACGT", "CCAGT", "TACG")]
+ID_TRACES2 = [[(1, 0), (2, 1), (3, 2)], [(0, 1), (1, -1), (2, 2), (3, 3)], [(2, 0), (3, 1), (-1, 2), (4, 3), (5, 4)], [(0, 0), (1, 1), (2, 2), (3, 3), (4, 4), (5, -1)],
+              [(3, 2)], [(1, 1), (2, -1), (3, -1), (4, 2)]]
+ID_TRACES3 = [[(1, 0, -1), (2, 1, 0), (3, 2, 1), (4, -1, 2)], [(0, 0, 0), (1, 1, 1), (2, 2, 2), (3, 3, 3)], [(2, -1, 1), (3, 2, 2), (4, 3, -1)]]
+for trace in ID_TRACES2:
+    for a, b in ((0, 1), (1, 0)):
+        tr = [(t[a], t[b]) for t in trace]
+        if all(x < len(ID_SEQS[r]) for t in tr for r, x in zip((a, b), t)):
+            R.check("identity helpers == column-by-column recomputation", "identity of partial pairwise traces", {"seqs": [str(ID_SEQS[a]), str(ID_SEQS[b])], "trace": tr},
+                    lambda a=a, b=b, tr=tr: identity_contract([ID_SEQS[a], ID_SEQS[b]], tr))
+for trace in ID_TRACES3:
+    R.check("identity helpers == column-by-column recomputation", "identity of partial 3-row traces", {"trace": trace},
+            lambda trace=trace: identity_contract(ID_SEQS, trace))
+
 # progressive multiple alignment
 POOL = ["ACGT", "ACT", "AGGT", "TTACG", "ACGTT", "CGT"]
 for combo in itertools.combinations(POOL, 3):
